@@ -20,6 +20,8 @@ Lemma same_spec_same_result : forall lg0 l l',
   fst (uspec lg0 (ins_of l')) = fst (uspec lg0 (ins_of l)) ->
   mbelow (2 ^ fst (uspec lg0 (ins_of l))) (snd (uspec lg0 (ins_of l'))) (snd (uspec lg0 (ins_of l))) ->
   dom (uspec lg0 (ins_of l)) ->
+  usteps_fit (lg0, mzero) (ins_of l) -> usteps_fit (lg0, mzero) (ins_of l') ->
+  result_fits (fst (uspec lg0 (ins_of l))) (snd (uspec lg0 (ins_of l))) ->
   exists u u' s s',
     union_of lg0 (map (fun x => fst (fst x)) l) = Ok u /\ union_of lg0 (map (fun x => fst (fst x)) l') = Ok u' /\
     union_to_sketch u = Ok s /\ union_to_sketch u' = Ok s' /\
@@ -27,14 +29,19 @@ Lemma same_spec_same_result : forall lg0 l l',
     build_bit_matrix s' = build_bit_matrix s /\ c_lgk s' = c_lgk s /\ c_num s' = c_num s /\ c_off s' = c_off s /\
     cpc_flavor s' = cpc_flavor s.
 Proof.
-  intros lg0 l l' Hrg HF HF' E1 E2 Hdom.
+  intros lg0 l l' Hrg HF HF' E1 E2 Hdom Hsf Hsf' Hrf.
   assert (Hpop : pop_rows (snd (uspec lg0 (ins_of l'))) (Knat (fst (uspec lg0 (ins_of l)))) =
                  pop_rows (snd (uspec lg0 (ins_of l))) (Knat (fst (uspec lg0 (ins_of l))))).
   { apply pop_rows_below. rewrite Knat_N. exact E2. }
   assert (Hdom' : dom (uspec lg0 (ins_of l'))).
   { unfold dom in *. rewrite E1, Hpop. exact Hdom. }
-  destruct (cpc_union_refines lg0 l Hrg HF Hdom) as [u [Eu [Hl [Hn [s [Es [_ [Hb [Hls [Hns [Ho _]]]]]]]]]]].
-  destruct (cpc_union_refines lg0 l' Hrg HF' Hdom') as [u' [Eu' [Hl' [Hn' [s' [Es' [_ [Hb' [Hls' [Hns' [Ho' _]]]]]]]]]]].
+  assert (Hrf' : result_fits (fst (uspec lg0 (ins_of l'))) (snd (uspec lg0 (ins_of l')))).
+  { unfold result_fits in *. rewrite E1, Hpop. intros Hd. rewrite <- (Hrf Hd). f_equal. unfold load. f_equal. f_equal.
+    apply filter_ext_in. intros x Hx. apply positions_In in Hx. unfold surp.
+    assert (Hr : x / 64 < 2 ^ fst (uspec lg0 (ins_of l))) by (pose proof (pow_pos (fst (uspec lg0 (ins_of l)))); lia).
+    rewrite (E2 _ Hr). reflexivity. }
+  destruct (cpc_union_refines lg0 l Hrg HF Hdom Hsf Hrf) as [u [Eu [Hl [Hn [s [Es [_ [Hb [Hls [Hns [Ho _]]]]]]]]]]].
+  destruct (cpc_union_refines lg0 l' Hrg HF' Hdom' Hsf' Hrf') as [u' [Eu' [Hl' [Hn' [s' [Es' [_ [Hb' [Hls' [Hns' [Ho' _]]]]]]]]]]].
   exists u, u', s, s'. repeat (split; [assumption|]).
   split; [congruence|]. split; [rewrite Hn', Hn, E1; exact Hpop|].
   split; [rewrite Hb', Hb, E1; f_equal; apply rows_of_below; rewrite Knat_N; exact E2|].
@@ -51,6 +58,8 @@ Proof. intros l l' P. unfold ins_of. apply Permutation_map. exact P. Qed.
 Theorem cpc_union_order_irrelevant : forall lg0 l l',
   4 <= lg0 <= 26 -> Forall (fun x => Vin (fst (fst x)) (snd (fst x)) (snd x)) l -> Permutation l l' ->
   dom (uspec lg0 (ins_of l)) ->
+  usteps_fit (lg0, mzero) (ins_of l) -> usteps_fit (lg0, mzero) (ins_of l') ->
+  result_fits (fst (uspec lg0 (ins_of l))) (snd (uspec lg0 (ins_of l))) ->
   exists u u' s s',
     union_of lg0 (map (fun x => fst (fst x)) l) = Ok u /\ union_of lg0 (map (fun x => fst (fst x)) l') = Ok u' /\
     union_to_sketch u = Ok s /\ union_to_sketch u' = Ok s' /\
@@ -58,7 +67,7 @@ Theorem cpc_union_order_irrelevant : forall lg0 l l',
     build_bit_matrix s' = build_bit_matrix s /\ c_lgk s' = c_lgk s /\ c_num s' = c_num s /\ c_off s' = c_off s /\
     cpc_flavor s' = cpc_flavor s.
 Proof.
-  intros lg0 l l' Hrg HF P Hdom.
+  intros lg0 l l' Hrg HF P Hdom Hsf Hsf' Hrf.
   assert (HF' : Forall (fun x => Vin (fst (fst x)) (snd (fst x)) (snd x)) l') by (apply (Permutation_Forall P); exact HF).
   destruct (uspec_perm lg0 (ins_of l) (ins_of l') (ins_of_perm l l' P)) as [E1 E2].
   apply same_spec_same_result; try assumption; [symmetry; exact E1|apply mbelow_sym; exact E2].
@@ -68,6 +77,8 @@ Qed.
 Theorem cpc_union_repetition_irrelevant : forall lg0 l x,
   4 <= lg0 <= 26 -> Forall (fun x => Vin (fst (fst x)) (snd (fst x)) (snd x)) l -> In x l ->
   dom (uspec lg0 (ins_of l)) ->
+  usteps_fit (lg0, mzero) (ins_of l) -> usteps_fit (lg0, mzero) (ins_of (l ++ [x])) ->
+  result_fits (fst (uspec lg0 (ins_of l))) (snd (uspec lg0 (ins_of l))) ->
   exists u u' s s',
     union_of lg0 (map (fun x => fst (fst x)) l) = Ok u /\ union_of lg0 (map (fun x => fst (fst x)) (l ++ [x])) = Ok u' /\
     union_to_sketch u = Ok s /\ union_to_sketch u' = Ok s' /\
@@ -75,12 +86,12 @@ Theorem cpc_union_repetition_irrelevant : forall lg0 l x,
     build_bit_matrix s' = build_bit_matrix s /\ c_lgk s' = c_lgk s /\ c_num s' = c_num s /\ c_off s' = c_off s /\
     cpc_flavor s' = cpc_flavor s.
 Proof.
-  intros lg0 l x Hrg HF Hin Hdom.
+  intros lg0 l x Hrg HF Hin Hdom Hsf Hsf' Hrf.
   assert (HF' : Forall (fun x => Vin (fst (fst x)) (snd (fst x)) (snd x)) (l ++ [x])).
   { apply Forall_app. split; [exact HF|]. constructor; [|constructor]. rewrite Forall_forall in HF. apply HF. exact Hin. }
   assert (Hin' : In (snd (fst x), snd x) (ins_of l)).
   { unfold ins_of. apply in_map_iff. exists x. split; [reflexivity|exact Hin]. }
   destruct (uspec_idem lg0 (ins_of l) _ Hin') as [E1 E2].
   assert (Eapp : ins_of (l ++ [x]) = ins_of l ++ [(snd (fst x), snd x)]) by (unfold ins_of; rewrite map_app; reflexivity).
-  apply same_spec_same_result; try assumption; rewrite Eapp; assumption.
+  apply same_spec_same_result; try assumption; rewrite ?Eapp; try assumption.
 Qed.
